@@ -98,10 +98,8 @@ def stepStore (st : St) (toks : List String) : Option (St × String) :=
       let lk := if pfx == "storelk" then " W+W-" else ""      -- one write section, whatever the outcome
       match k.toNat?, i.toNat? with
       | some k, some i =>
-        match valueAt st i with
-        | some v =>
-          if v.kind = k then (let r := step st (.drop i); some (r.1, showOut r.2 ++ lk)) else some (st, "err-kind" ++ lk)
-        | none => some (st, "err-notfound" ++ lk)
+        let r := dropKind st k i
+        some (r.1, showOut r.2 ++ lk)
       | _, _ => none
     else none
   | "store" :: rest =>
